@@ -20,7 +20,7 @@ def run(ck):
         ck.cov["models"][-1]["negative_control"] = True    # stops at the expected counterexample, hence not "complete"
         hit = f"Invariant {inv} is violated" in r["out"]
         ck.cov["negative_controls"].append({"instance": "Labels 1..3, MaxLen 3", "invariant": inv, "violated_as_expected": hit})
-        if not hit:
+        if not hit and not ck.selftest:    # (the self-test of the trace binding skips the pure models)
             ck.problems.append(f"negative control {inv} was not rejected by MC_Oddpos")
     q = ck.tier == "quick"
     # Machine.tla, chain instance: three tensors r1 - r2 - r3 (all charges, sparsity patterns and pending signs of the pool);
